@@ -34,6 +34,7 @@ PARTS = {
     "C05": [("execsim", 700, 1.0)],
     "C09": [("execsim", 700, 1.0)],
     "C06": [("execsim", 160, 1.0)],
+    "C13": [("execsim", 300, 1.0)],
     "C14": [("execsim", 700, 1.0)],
     "C19": [("execsim", 900, 1.0)],
     "C20": [("p2psim", 3000, 0.5), ("execsim", 400, 0.5)],
